@@ -1410,6 +1410,8 @@ def close(a, b, tol=1e-7):
     if isinstance(a, bool) or isinstance(b, bool):
         return bool(a) == bool(b)
     if isinstance(a, (int, float)) and isinstance(b, (int, float)):
+        if isinstance(a, float) and isinstance(b, float) and math.isnan(a) and math.isnan(b):
+            return True
         if math.isinf(a) or math.isinf(b):
             return a == b
         return abs(a - b) <= tol * max(1.0, abs(a), abs(b))
